@@ -2346,6 +2346,44 @@ def tag_grammar(repo, rule="E1"):
     raise AnalysisError(rule, "gaftools/", "cannot find the tag grammar (type-letter table, tag pattern and validator)")
 
 
+def make_resolver(stmts, depth=4):
+    """res(expr) -> expr with the names that are bound exactly once in `stmts` (plain assignments; tuple targets unpacked
+    from a name / subscript are read as its elements) replaced by their definitions, repeatedly.  Returns an AST."""
+    import copy
+
+    env = {}
+    for st in walk_stmts(stmts):
+        if isinstance(st, ast.Assign) and len(st.targets) == 1:
+            t = st.targets[0]
+            if isinstance(t, ast.Name):
+                env.setdefault(t.id, []).append(st.value)
+            elif isinstance(t, ast.Tuple) and all(isinstance(e, ast.Name) for e in t.elts) and isinstance(st.value, (ast.Subscript, ast.Name)):
+                for k_, e in enumerate(t.elts):
+                    env.setdefault(e.id, []).append(ast.Subscript(value=st.value, slice=ast.Constant(value=k_), ctx=ast.Load()))
+        elif isinstance(st, (ast.AugAssign, ast.For)):
+            for n in ast.walk(st.target):
+                if isinstance(n, ast.Name):
+                    env.setdefault(n.id, []).extend([None, None])
+    env = {k: v[0] for k, v in env.items() if len(v) == 1 and v[0] is not None}
+
+    class R(ast.NodeTransformer):
+        def visit_Name(self, n):
+            if isinstance(n.ctx, ast.Load) and n.id in env:
+                return copy.deepcopy(env[n.id])
+            return n
+
+    def res(e):
+        e = copy.deepcopy(e)
+        for _ in range(depth):
+            e2 = R().visit(copy.deepcopy(e))
+            if ast.dump(e2) == ast.dump(e):
+                break
+            e = e2
+        return ast.fix_missing_locations(e)
+
+    return res
+
+
 def regex_call(mod, call):
     """(method, pattern text, [subject args]) for `re.<m>(PATTERN, ...)` with a literal / module-constant pattern and for
     `COMPILED.<m>(...)` where COMPILED is a module-level `re.compile(PATTERN)`; None otherwise."""
